@@ -250,8 +250,8 @@ TASK_STATE_MACHINE_DATA = {
         events.ACTION_CANCELING: statuses.CANCELING,
         events.ACTION_CANCELED: statuses.CANCELED,
         events.ACTION_FAILED: statuses.FAILED,
-        events.ACTION_EXPIRED: statuses.EXPIRED,
-        events.ACTION_ABANDONED: statuses.ABANDONED,
+        events.ACTION_EXPIRED: statuses.FAILED,
+        events.ACTION_ABANDONED: statuses.FAILED,
     },
     statuses.SCHEDULED: {
         events.ACTION_DELAYED: statuses.DELAYED,
@@ -262,8 +262,8 @@ TASK_STATE_MACHINE_DATA = {
         events.ACTION_CANCELING: statuses.CANCELING,
         events.ACTION_CANCELED: statuses.CANCELED,
         events.ACTION_FAILED: statuses.FAILED,
-        events.ACTION_EXPIRED: statuses.EXPIRED,
-        events.ACTION_ABANDONED: statuses.ABANDONED,
+        events.ACTION_EXPIRED: statuses.FAILED,
+        events.ACTION_ABANDONED: statuses.FAILED,
     },
     statuses.DELAYED: {
         events.ACTION_SCHEDULED: statuses.SCHEDULED,
@@ -274,8 +274,8 @@ TASK_STATE_MACHINE_DATA = {
         events.ACTION_CANCELING: statuses.CANCELING,
         events.ACTION_CANCELED: statuses.CANCELED,
         events.ACTION_FAILED: statuses.FAILED,
-        events.ACTION_EXPIRED: statuses.EXPIRED,
-        events.ACTION_ABANDONED: statuses.ABANDONED,
+        events.ACTION_EXPIRED: statuses.FAILED,
+        events.ACTION_ABANDONED: statuses.FAILED,
     },
     statuses.RUNNING: {
         events.ACTION_RUNNING: statuses.RUNNING,
